@@ -41,8 +41,8 @@ static unsigned char *OTHER; static int OTHERLEN;  /* a record of the opposite d
 static unsigned char *FOREIGN; static int FOREIGNLEN; /* a record of another connection, same suite and direction */
 static unsigned char *OLD; static int OLDLEN;       /* an earlier application record of this direction, already delivered */
 
-enum { ED_FLIP = 0, ED_SETBYTE, ED_TRUNC, ED_APPEND, ED_LEN, ED_TYPE, ED_VER, ED_SWAP, ED_DROP, ED_DUP, ED_REPLAY_OLD, ED_REFLECT, ED_SPLICE, ED_XORBYTE, ED_NONE, ED_N };
-static const char *edname[] = { "bitflip", "setbyte", "truncate", "insert-garbage", "length-field", "type-field", "version-field", "swap-records", "drop-record", "duplicate-record", "replay-old-record", "reflect-other-direction", "splice-other-connection", "xor-byte", "none" };
+enum { ED_FLIP = 0, ED_SETBYTE, ED_TRUNC, ED_APPEND, ED_LEN, ED_TYPE, ED_VER, ED_SWAP, ED_DROP, ED_DUP, ED_REPLAY_OLD, ED_REFLECT, ED_SPLICE, ED_XORBYTE, ED_NONE, ED_INSERT_CCS, ED_N };
+static const char *edname[] = { "bitflip", "setbyte", "truncate", "insert-garbage", "length-field", "type-field", "version-field", "swap-records", "drop-record", "duplicate-record", "replay-old-record", "reflect-other-direction", "splice-other-connection", "xor-byte", "none", "insert-plaintext-ccs" };
 typedef struct { int kind; int rec; int pos; int val; } edit_t;
 
 static struct { const scn_t *scn; int dir; const edit_t *ed; char desc[256]; int firstBadRec; int allowedPt; int dtls; int pureTrunc; int region; } M;
@@ -93,6 +93,13 @@ static int apply_edit(const edit_t *ed, unsigned char *out)
     case ED_SWAP: { int a = R[r].off, la = R[r].hdr + R[r].len, lb = R[r + 1].hdr + R[r + 1].len; memcpy(out + a, W + R[r + 1].off, lb); memcpy(out + a + lb, W + a, la); break; }
     case ED_DROP: { int a = R[r].off, la = R[r].hdr + R[r].len; memmove(out + a, out + a + la, Wlen - a - la); n -= la; break; }
     case ED_DUP: { int a = R[r].off, la = R[r].hdr + R[r].len; memmove(out + a + la, out + a, Wlen - a); n += la; M.firstBadRec = r + 1; break; }
+    case ED_INSERT_CCS: {  /* val plaintext ChangeCipherSpec records in front of record r (same read) */
+        int at = R[r].off, hl = M.dtls ? 13 : 5, one = hl + 1; unsigned char ccs[14]; memcpy(ccs, W + R[r].off, hl); ccs[0] = 20; ccs[hl - 2] = 0; ccs[hl - 1] = 1; ccs[hl] = 1;
+        if (M.dtls) { ccs[3] = 0; ccs[4] = 0; }
+        memmove(out + at + ed->val * one, out + at, Wlen - at); for (int i = 0; i < ed->val; i++) memcpy(out + at + i * one, ccs, one); n += ed->val * one;
+        /* TLS 1.3 lets a receiver drop such records: then everything must still arrive intact; it may also refuse them */
+        if (M.scn->ver == MX_TLS13) M.firstBadRec = -2;
+        break; }
     case ED_REPLAY_OLD: case ED_REFLECT: case ED_SPLICE: {
         unsigned char *src = ed->kind == ED_REPLAY_OLD ? OLD : ed->kind == ED_REFLECT ? OTHER : FOREIGN;
         int sl = ed->kind == ED_REPLAY_OLD ? OLDLEN : ed->kind == ED_REFLECT ? OTHERLEN : FOREIGNLEN;
@@ -126,6 +133,7 @@ static void child_run(void *a_)
         return;
     }
     if (M.dtls) { vf_statf(1, "dtls_%s", T->dead ? "fatal" : "discarded-or-ignored"); return; }
+    if (M.firstBadRec == -2) { vf_statf(1, "tls13_ccs_%s", (T->dead || (T->ssl->flags & SSL_FLAGS_ERROR)) ? "refused" : "ignored"); return; }
     /* TLS: the session must be dead unless the edit only withheld bytes */
     if (M.firstBadRec >= nR && a->ed->kind == ED_TRUNC) return;
     int dead = T->dead || (T->ssl->flags & (SSL_FLAGS_ERROR | SSL_FLAGS_CLOSED));
@@ -206,6 +214,7 @@ static void enumerate_edits(mx_ep *rcv, int dtls, int aead, int nsmall)
             e = (edit_t) { ED_REPLAY_OLD, r, 0, 0 }; run_edit(rcv, &e);
             e = (edit_t) { ED_REFLECT, r, 0, 0 }; run_edit(rcv, &e);
             e = (edit_t) { ED_SPLICE, r, 0, 0 }; run_edit(rcv, &e);
+            for (int c = 1; c <= 3; c++) { e = (edit_t) { ED_INSERT_CCS, r, 0, c }; run_edit(rcv, &e); }
         }
         /* CBC padding forgeries: every XOR delta on the byte that controls the padding length, and on the last byte */
         if (aead == 0 && (r == 1 || r == 4 || (vf_thorough && small)) && R[r].len >= 48) {
